@@ -73,7 +73,14 @@ def rule_recheck(ctx: Ctx):
                 continue
             n += 1
             tail = syms[rels[-1] + 1:]
-            ok = any((s.kind == "QTEST" and s.info["taken"] is False) or (s.kind == "ACQ?" and s.info["taken"] is False) for s in tail)
+            rel_idx = syms[rels[-1]].ev.idx
+            ok = any((s.kind == "QTEST" and s.info["taken"] is False and s.info.get("read_idx", s.ev.idx) > rel_idx)
+                     or (s.kind == "ACQ?" and s.info["taken"] is False) for s in tail)
+            stale = [s for s in tail if s.kind == "QTEST" and s.info.get("read_idx", s.ev.idx) < rel_idx]
+            if stale and not ok:
+                rep.violation("C06.recheck", stale[0].ev.loc(), f"{eng.name}: the queue is looked at *before* the lock is released and the stale "
+                              "answer is used afterwards: a sender that enqueues in between is stranded", fn.key, norm_stmt(stale[0].ev.node))
+                continue
             rep.check(ok, "C06.recheck", syms[rels[-1]].ev.loc(),
                       f"{eng.name}: after releasing the lock the queue is looked at again before returning (no lost wake-up)",
                       fn.key, "return after release without re-checking the queue", tail=[repr(s) for s in tail])
